@@ -252,9 +252,11 @@ def main():
                 break
 
     # 5. verdict -------------------------------------------------------------------------------
-    for (k, what) in {(json.dumps(k, sort_keys=True), w) for (k, w) in known_hits}:
-        kk = json.loads(k)
-        print(f"KNOWN-FINDING: property={pid} {kk.get('what', '')} [{what}]")
+    by_id = {}
+    for (k, w) in known_hits:
+        by_id.setdefault(k.get("id", json.dumps(k, sort_keys=True)), (k, []))[1].append(w)
+    for fid, (kk, ws) in sorted(by_id.items()):
+        print(f"KNOWN-FINDING: property={pid} {fid}: {kk.get('what', '')} [{len(ws)} matching case(s) this run, e.g. {ws[0][:160]}]")
     rc = 0
     if violations:
         rc = 1
